@@ -135,6 +135,39 @@ func limitsGpuMemoryScenarios(tier string) []clustermc.Scenario {
 	return wlScenariosRange(menu, lay, qsets, cfgs, 2, 3)
 }
 
+// limitsBindFaultScenarios: gangs and single jobs under limited queues on a node with room for all of
+// them, with every single bind failing in turn: whatever a statement already bound stays charged to its
+// queues, so the jobs that follow in the same cycle still meet the limit and the non-preemptible quota.
+func limitsBindFaultScenarios(tier string) []clustermc.Scenario {
+	menu := []wlItem{
+		{"pend-gang2-qa", world.WL{Queue: "qa", MinMember: 2, Pods: pods(2, shG1, "", "")}},
+		{"pend-gang2-np-qb", world.WL{Queue: "qb", PC: "p100", MinMember: 2, Pods: pods(2, shG1, "", "")}},
+		{"pend-g1-qa", world.WL{Queue: "qa", Pods: pods(1, shG1, "", "")}},
+		{"pend-g1-np-qa", world.WL{Queue: "qa", PC: "p100", Pods: pods(1, shG1, "", "")}},
+		{"pend-g1-qb", world.WL{Queue: "qb", Pods: pods(1, shG1, "", "")}},
+		{"pend-g1-np-qb", world.WL{Queue: "qb", PC: "p100", Pods: pods(1, shG1, "", "")}},
+	}
+	variant := &clustermc.Family{
+		Property:   "C08",
+		Depth:      func(string) int { return 2 },
+		FaultDepth: func(string) int { return 1 },
+		Env:        clustermc.EnvOpts{BindOK: true, Terminate: true},
+		Oracles:    []clustermc.Oracle{oracle.LimitsOracle()},
+	}
+	lay := []nodeLayout{{"1n-6gpu", []world.NodeOpt{{Name: "n1", CPU: "16", Mem: "32Gi", GPUs: 6, GPUMemMiB: 40000}}}}
+	cfgs := []schedrun.Config{{}, {Placement: "spread", ConsolidatingReclaim: true}}
+	var out []clustermc.Scenario
+	for _, sc := range wlScenariosRange(menu, lay, limitQueues(), cfgs, 2, 4) {
+		if !strings.Contains(sc.Name, "gang2") {
+			continue
+		}
+		sc.Name = "bindfault:" + sc.Name
+		sc.Variant = variant
+		out = append(out, sc)
+	}
+	return out
+}
+
 func C08() *clustermc.Family {
 	return &clustermc.Family{
 		Property: "C08",
@@ -144,7 +177,8 @@ func C08() *clustermc.Family {
 				lay = append(lay, nodeLayout{"2n-2+2gpu", []world.NodeOpt{{Name: "n1", CPU: "16", Mem: "32Gi", GPUs: 2, GPUMemMiB: 40000}, {Name: "n2", CPU: "16", Mem: "32Gi", GPUs: 2, GPUMemMiB: 80000}}})
 			}
 			cfgs := []schedrun.Config{{}, {Placement: "spread", NoConsolidation: true, ConsolidatingReclaim: true}}
-			return append(append(wlScenarios(tier, limitsMenu(), lay, limitQueues(), cfgs, 3, 4), limitsReleasingScenarios(tier)...), limitsGpuMemoryScenarios(tier)...)
+			out := append(append(wlScenarios(tier, limitsMenu(), lay, limitQueues(), cfgs, 3, 4), limitsReleasingScenarios(tier)...), limitsGpuMemoryScenarios(tier)...)
+			return append(out, limitsBindFaultScenarios(tier)...)
 		},
 		Depth:   func(tier string) int { return 3 },
 		Env:     clustermc.EnvOpts{BindOK: true, Terminate: true},
